@@ -114,11 +114,12 @@ func (s *seriesSet) Warnings() annotations.Annotations { return nil }
 
 func NewEngine() *promql.Engine {
 	return promql.NewEngine(promql.EngineOpts{
-		MaxSamples:           50_000_000,
-		Timeout:              30 * time.Second,
-		LookbackDelta:        5 * time.Minute,
-		EnableAtModifier:     true,
-		EnableNegativeOffset: true,
+		MaxSamples:               50_000_000,
+		Timeout:                  30 * time.Second,
+		LookbackDelta:            5 * time.Minute,
+		EnableAtModifier:         true,
+		EnableNegativeOffset:     true,
+		NoStepSubqueryIntervalFn: func(int64) int64 { return 60_000 },
 	})
 }
 
